@@ -201,6 +201,21 @@ def main(argv=None):
                     undecided.append("%s: %s (candidate did not reproduce)" % (r["name"], r["reason"]))
             else:
                 undecided.append("%s: %s" % (r["name"], r["reason"]))
+    # guards against a wrong verifier (DESIGN 5.2): the axioms of the two models against the running CPython
+    guards = []
+    if not a.only:
+        import subprocess
+        for label, cmd in (("api-conformance", ["/venv/bin/python", os.path.join(ROOT, "guards", "api_conformance.py")]),
+                           ("builtins-conformance", [sys.executable, os.path.join(ROOT, "guards", "builtins_conformance.py")] +
+                            (["--thorough"] if tier == "thorough" else []))):
+            try:
+                p = subprocess.run(cmd, capture_output=True, text=True, timeout=900)
+                res = json.loads(p.stdout.strip().splitlines()[-1]) if p.stdout.strip() else dict(mismatches=["no output: " + p.stderr[-300:]])
+            except Exception as e:        # the guard itself failing is a checker error as well
+                res = dict(mismatches=["guard did not run: %r" % (e,)])
+            guards.append(dict(guard=label, probes=res.get("probes"), mismatches=res.get("mismatches")))
+            for mm in res.get("mismatches") or []:
+                internal.append("model does not conform to CPython (%s): %s" % (label, mm))
     # extra (non-deductive, labelled) checks attached to the property
     bounded = []
     for c in {c for c, _ in units}:
@@ -261,6 +276,7 @@ def main(argv=None):
             undecided=undecided[:50],
             hints=sorted(hints),
             bounded_checks=bounded,
+            model_conformance_guards=guards,
             explanation="obligations = (path x clause) verification conditions generated from the real source of the listed "
                         "functions; discharged = proved unsat by the named back end; bounded_checks are stand-ins and are NOT "
                         "counted in obligations/discharged",
